@@ -298,6 +298,7 @@ impl Check for CmdCheck {
             force_batch1: false,
             bridge_dups: false,
             abort_before_poll: self.diff_hosts.is_empty(),
+            legacy_drops: false,
         };
         (self.tweak)(&mut cfg, &mut sc, &mut crng, host);
         if !host.supports_legacy() {
@@ -368,7 +369,7 @@ impl Check for CmdCheck {
             }
         }
         CmdScn {
-            scn: Scenario { host, steps: so.steps, hash_seed: mix(xrng.next_u64(), 1), buggify, drain_from: so.drain_from, adaptive_drain: false, defer_drops: !self.diff_hosts.is_empty(), bridge_dups: sc.bridge_dups },
+            scn: Scenario { host, steps: so.steps, hash_seed: mix(xrng.next_u64(), 1), buggify, drain_from: so.drain_from, adaptive_drain: false, defer_drops: !self.diff_hosts.is_empty(), bridge_dups: sc.bridge_dups, legacy_drops: sc.legacy_drops },
             law,
             diff_hosts,
             enumerate: self.enumerate,
@@ -837,6 +838,7 @@ fn c13_tweak(cfg: &mut GenCfg, sc: &mut ScriptCfg, rng: &mut Rng, h: HostSel) {
     sc.noops = false;
     sc.drop_all = rng.chance(1, 6);
     sc.drop_roots = rng.chance(1, 4);
+    sc.legacy_drops = cfg.legacy && rng.chance(1, 2);
 }
 
 pub static C13: CmdCheck = CmdCheck {
